@@ -56,6 +56,15 @@ def run(ctx: Ctx) -> None:
         params = {a.arg for a in f.node.args.args + f.node.args.kwonlyargs}
         local_binds = {t.id for n in walk_no_nested(f.node) if isinstance(n, ast.Assign) for t in n.targets if isinstance(t, ast.Name)}
         live = FLAG not in params and FLAG not in local_binds
+        # a default value is evaluated once, when the gate is defined: `def gate(loc, _on=FLAG)` tests a stale copy
+        all_args = f.node.args.posonlyargs + f.node.args.args
+        defaults = list(zip(all_args[len(all_args) - len(f.node.args.defaults):], f.node.args.defaults)) + \
+            [(a, d) for a, d in zip(f.node.args.kwonlyargs, f.node.args.kw_defaults) if d is not None]
+        frozen = [a.arg for a, d in defaults if any(isinstance(x, ast.Name) and x.id == FLAG for x in ast.walk(d))]
+        if frozen:
+            ctx.violation("R-C33.1", key, f.where, {"parameters_defaulting_to_the_flag": frozen},
+                          f"`{f.name}` captures the flag's value at import time (default argument): enabling or disabling experimental features later has no effect on it")
+            continue
         body = body_without_docstring(f.node)
         verdict = None
         facts: dict = {"reads_live_global": live}
